@@ -101,6 +101,10 @@ func exerciseCsig(tl *c06Tools, c *cose.Countersignature, parent any, depth int)
 		c.Verify(v, parent, []byte("ext"))
 	}
 	c.MarshalCBOR()
+	// a decoded countersignature is itself a countersigning parent (exactly as the decoder handed it out)
+	if depth <= 2 {
+		countersignAll(tl, c)
+	}
 	if c != nil {
 		exerciseHeaders(tl, &c.Headers, c, depth+1)
 		exerciseHeaders(tl, &c.Headers, *c, depth+1)
